@@ -322,6 +322,15 @@ func Check(c Case) ([]evid.Violation, info) {
 			vs = append(vs, evid.V("serve-panic", "serve-"+strings.SplitN(o.Panic, ":", 2)[0], "accepted rule %s %s panics when %s %q is served: %s", bd.Verb, bd.Tmpl, verb, path, o.Panic))
 			continue
 		}
+		if bd.Body != "" {
+			// the binding maps a body: serve one, too (an accepted rule must cope with its own mapping)
+			for _, body := range []string{`{}`, `{"name":"n"}`, `"text"`, `7`} {
+				if ob := b.DoBody(verb, path, body); ob.Panic != "" {
+					vs = append(vs, evid.V("serve-panic", "serve-"+strings.SplitN(ob.Panic, ":", 2)[0], "accepted rule %s %s (body %q) panics when %s %q is served with body %s: %s", bd.Verb, bd.Tmpl, bd.Body, verb, path, body, ob.Panic))
+					break
+				}
+			}
+		}
 		if verdict != accept {
 			continue
 		}
@@ -465,8 +474,8 @@ func genCase(t *rapid.T) Case {
 		f := rapid.SampledFrom([]string{"nope", "name.id", "Name", "sub.nope", "sub.inner.id.x", "tags", "sub", "page_size", "pageSize", "labels", "labels.key", "labels.value", "subs.key", "subs.value.name", "subs.value.inner.id"}).Draw(t, "ff")
 		c.New[pick].Tmpl = "/" + rapid.SampledFrom(c16Lits).Draw(t, "fl") + "/{" + f + "}"
 	case "selector":
-		c.New[pick].Body = rapid.SampledFrom([]string{"", "*", "sub", "sub.inner", "nope", "sub.nope", "name", "tags", "*", "subs", "subs.value", "subs.value.inner", "labels.value", "req_only", "rsp_only"}).Draw(t, "body")
-		c.New[pick].Resp = rapid.SampledFrom([]string{"", "sub", "sub.inner", "nope", "sub.nope", "name", "", "subs.value", "labels", "rsp_only", "rsp_only.inner", "req_only", "req_only.inner"}).Draw(t, "resp")
+		c.New[pick].Body = rapid.SampledFrom([]string{"", "*", "sub", "sub.inner", "nope", "sub.nope", "name", "tags", "*", "subs", "subs.value", "subs.value.inner", "labels.value", "req_only", "rsp_only", "sub.name", "sub.inner.id"}).Draw(t, "body")
+		c.New[pick].Resp = rapid.SampledFrom([]string{"", "sub", "sub.inner", "nope", "sub.nope", "name", "", "subs.value", "labels", "rsp_only", "rsp_only.inner", "req_only", "req_only.inner", "sub.name", "sub.inner.id"}).Draw(t, "resp")
 	case "nested":
 		for len(c.New) < 3 {
 			c.New = append(c.New, valid())
